@@ -44,6 +44,10 @@ CHECKS = [
        "Generated-input search over collinear trees (chains; roots with two opposite arms) with spacings from exactly max(r) upward so that about half of the neighbouring sphere pairs overlap, any direction and offset, accuracy levels 3-9 and the named levels, plus arbitrary trees at levels 1 and 2; oracle = exact revolution integral of the union profile of all spheres and frusta along the line, all analytic levels agree, extract_feature('volume') equals it; levels 1 / 2 against float64 sums. Exploration, not proof.",
        "Trusted: the revolution-integral reference (vlib/models.py); rtol 1e-4 for the library's float32 arithmetic; Monte-Carlo level 10 excluded.",
        "property-based testing (Hypothesis): independent exact reference (solid-of-revolution integral) + cross-level agreement"),
+    _c("C10",
+       "Generated-input search over trees of every shape class (coincident points, zero-length segments, soma and non-soma roots), Sholl radii (fractions of rmax, gap midpoints, exact node distances, integer step grids), binary trees in general position, populations of 1-5 trees; oracle = float64 textbook definitions computed by parent-pointer walks (length, branch/path length, straight-line distance, tortuosity, radial distance, branch order, counts, straddle count, L-Measure stems/bifurcations/branches/tips/path and Euclidean distance/branch order/terminal degree/partition asymmetry/fragmentation/contraction/bifurcation amplitude and tilt), front end compared with the feature classes (single/list/dict forms), population rows zero-padded. Exploration, not proof.",
+       "Trusted: reference definitions in props/c10.py + vlib/models.py; tolerances for float32 library arithmetic; angles compared through cosines; LMeasure.branch_order counts furcations on the root path inclusively (library definition).",
+       "property-based testing (Hypothesis): reference-model oracle from definitions + differential front-end/feature-class comparison"),
     {"id": "C02",
      "text": "Generated-input search: SWC texts assembled from the line grammar with exactly known rational values, read through every source kind/encoding/option; oracle = the generator's own table (exact equality) for valid texts, 'must raise' for texts with injected malformed lines or an undecodable byte, tag-based isomorphism for sort_nodes. No counterexample among the generated cases; this is exploration, not proof.",
      "ref": "DESIGN.md section 3 C02",
